@@ -142,7 +142,7 @@ class LockStep:
         ((loss2 * self.scale) if self.scale else loss2).backward()
         return None, None
 
-    def train_iter(self, seed, sizes=None, reset_after=None, check=True, by=()):
+    def train_iter(self, seed, sizes=None, reset_after=None, check=True, by=(), extra_fwd=0):
         c = self.case
         accum = c.get('accum', 1)
         sizes = sizes or [c.get('N', 2)] * accum
@@ -156,6 +156,15 @@ class LockStep:
         for m in (self.model, self.twin):
             m.zero_grad(set_to_none=self.case.get('zero_to_none', True))
         before = self.factors()
+        if extra_fwd and not self.ref.is_factor_step():
+            # on a step that is not a factor-update step K-FAC ignores train-mode passes, so their number does not matter:
+            # extra forward-only passes (an irregular window at the end of an epoch, a statistics pass) must change nothing
+            for j in range(extra_fwd):
+                xe = kmodel.make_input(c['spec'], c.get('N', 2), seed * 31 + 977 + j, c.get('style', 'gauss'), self.pd)
+                with torch.no_grad():
+                    self.model(xe)
+                    self.twin(xe)
+            self.rec.pop()
         plan = list(range(accum))
         if reset_after is not None and not c.get('in_hook', True) and 0 < reset_after <= accum:
             plan = list(range(reset_after)) + ['reset'] + list(range(accum))
